@@ -62,6 +62,7 @@ namespace
     std::vector<BEP> asserted;
     std::vector<Disjunction> disjunctions;
     std::map<std::string, E> expect_num; // C16c: variable pinned to a constant expression
+    std::map<std::string, E> expect_path; // C16c: object.field / atom.parameter determined by constant expressions in other syntactic positions
     std::map<std::string, TV> expect_bool;
     std::vector<ClassInfo> classes;
     std::vector<Instance> instances;
@@ -375,6 +376,33 @@ namespace
       }
     }
     // C16 (c): variables pinned to constant expressions, directly and through equalities
+    // constant expressions in the other syntactic positions the statement names: field initialisers, constructor arguments,
+    // predicate arguments and rule bodies
+    void pinned_positions()
+    {
+      auto cexpr = [&](mpq_class &v) -> NEP {
+        for (int k = 0; k < 4; ++k)
+        {
+          NEP e = nexpr({}, false, 2);
+          auto val = neval(e, Valuation(), {}, {});
+          if (val) { v = val->r.v; return e; }
+        }
+        v = 1;
+        return nconst(1);
+      };
+      mpq_class v1, v2, v3, v4, v5;
+      NEP e1 = cexpr(v1), e2 = cexpr(v2), e3 = cexpr(v3), e4 = cexpr(v4), e5 = cexpr(v5);
+      p.text << "class EA {\n  real f = " << nprint(e1) << ";\n  real g;\n  real h;\n  EA(real a) : g(a), h(" << nprint(e5) << ") {}\n}\n";
+      p.text << "EA ea = new EA(" << nprint(e2) << ");\n";
+      p.text << "predicate EP(real x, real y) {\n  y == x + (" << nprint(e3) << ");\n}\n";
+      p.text << "goal eg = new EP(x: " << nprint(e4) << ");\n";
+      p.expect_path["ea.f"] = E(Q(v1));
+      p.expect_path["ea.g"] = E(Q(v2));
+      p.expect_path["ea.h"] = E(Q(v5));
+      p.expect_path["eg.x"] = E(Q(v4));
+      p.expect_path["eg.y"] = E(Q(mpq_class(v3 + v4)));
+      p.feats.insert("constant expressions as field initialiser, constructor argument, initialiser-list argument, predicate argument and in a rule body");
+    }
     void pinned()
     {
       int n = t.range(1, 4);
@@ -443,6 +471,7 @@ namespace
     Valuation val;
     std::map<std::string, E> inst_fields; // instance.field -> value
     std::map<std::string, std::set<std::string>> domains_after_read;
+    std::map<std::string, E> path_vals;
     std::vector<std::string> json_mismatch; // core::to_json() against the API
     long json_compared = 0;
   };
@@ -522,6 +551,19 @@ namespace
       }
     }
     for (auto &ov : p.objvars) out.val.obj[ov.name] = domain_of(ov.name);
+    for (auto &kv : p.expect_path)
+    {
+      try
+      {
+        auto dot = kv.first.find('.');
+        ratio::expr o = s.get(kv.first.substr(0, dot));
+        auto v = num_of(o->get(kv.first.substr(dot + 1)));
+        if (v) out.path_vals[kv.first] = *v;
+      }
+      catch (const std::exception &)
+      {
+      }
+    }
     // the solution as the JSON of core::to_json() (what `oRatio <files> <out.json>` writes) against the API values
     {
       smt::json j = s.to_json();
@@ -810,6 +852,7 @@ namespace
   }
 
 #include "h_prob_objects.inc" // NOLINT: class / instance / object-variable layer of the generator
+static bool g_expect_unsolvable = false; // set by generators that build problems known to have no solution
 #include "h_prob_timelines.inc"
 #include "h_prob_temporal.inc" // NOLINT: StateVariable / ReusableResource layer and the plan validators
 #include "h_prob_rules.inc"     // NOLINT: predicates with rules, facts, goals; derivation-structure checks (C03)
@@ -883,9 +926,9 @@ namespace
     Problem p;
     Gen g{t, o, p};
     std::string layer = o.get("layer", "L0");
-    if (P == "C16") layer = "eval";
+    if (P == "C16" && layer != "evalp") layer = "eval";
     if (P == "C17") layer = "L1";
-    if (P == "C04" || P == "C05" || (P == "C06" && layer != "L3b") || P == "C19") layer = "L3";
+    if (((P == "C04" && layer != "L3d") || P == "C05" || (P == "C06" && layer != "L3b") || P == "C19")) layer = "L3";
     if (P == "C03" && layer != "L2p") layer = "L2";
     p.planted = layer == "L3" ? true : (P == "C02" ? t.chance(1, 2) : t.chance(2, 3));
     Timelines tl;
@@ -911,6 +954,12 @@ namespace
 #endif
       };
     }
+    else if (layer == "L3d")
+    {
+      gen_branches(g, tl);
+      g_plan = Plan();
+      g_after_solve = [&tl](ratio::solver &s) { read_plan(s, tl, g_plan); read_extracted(s, tl, g_plan); };
+    }
     else if (layer == "L3b")
     {
       gen_temporal(g, tmp);
@@ -921,6 +970,12 @@ namespace
     {
       gen_shared(g, sh, rl);
       g_after_solve = [&rl](ratio::solver &s) { read_atoms(s, rl); };
+    }
+    else if (layer == "evalp")
+    {
+      p.planted = true;
+      g.pinned_positions();
+      g.pinned();
     }
     else if (layer == "eval")
     {
@@ -1043,6 +1098,13 @@ namespace
         if (qx::cmp(it->second, kv.second) != 0)
           c16.push_back("variable " + kv.first + " is pinned to a constant expression denoting " + qx::str(kv.second) + " but the solution reports " + qx::str(it->second));
       }
+      for (auto &kv : p.expect_path)
+      {
+        auto it = out.path_vals.find(kv.first);
+        if (it == out.path_vals.end()) { c16.push_back(kv.first + " cannot be read from the solution"); continue; }
+        if (qx::cmp(it->second, kv.second) != 0)
+          c16.push_back(kv.first + " is determined by constant expressions denoting " + qx::str(kv.second) + " but the solution reports " + qx::str(it->second));
+      }
       for (auto &kv : p.expect_bool)
       {
         auto it = out.val.boo.find(kv.first);
@@ -1054,7 +1116,8 @@ namespace
       for (auto &m : out.json_mismatch) c01.push_back(m);
       r.counters["json_values_compared"] += out.json_compared;
       check_objects(p, out, c17);
-      if (layer == "L3") check_timelines(p, tl, out, c04, c05, c06, c01, r);
+      if (layer == "L3" || layer == "L3d") check_timelines(p, tl, out, c04, c05, c06, c01, r);
+      if (g_expect_unsolvable) c04.push_back("a problem in which every alternative overlaps a pinned fact on its state variable was reported solved");
       if (layer == "L2p") check_shared(sh, out, c01, c03, r);
       if (layer == "L3b") check_temporal(tmp, g_plan, c01, c06, r);
     }
@@ -1151,10 +1214,11 @@ namespace
     for (auto &f : p.feats) r.classes.insert(f);
     r.classes.insert(out.verdict == SOLVED ? "verdict: solved" : out.verdict == UNSOLVABLE ? "verdict: unsolvable" : "verdict: rejected");
     r.classes.insert(p.planted ? "planted" : "free");
-    if ((P == "C01" || P == "C06") && (layer == "L3" || layer == "L2p" || layer == "L3b")) r.nontrivial = out.verdict == SOLVED && r.nontrivial;
+    if (layer == "L3d") r.nontrivial = true;
+    else if ((P == "C01" || P == "C06") && (layer == "L3" || layer == "L2p" || layer == "L3b")) r.nontrivial = out.verdict == SOLVED && r.nontrivial;
     else if (P == "C01") r.nontrivial = out.verdict == SOLVED && (evaluated_mixed || p.feats.count("arithmetic disequality") || p.feats.count("disjunction statement") || !p.objvars.empty());
     else if (P == "C02") r.nontrivial = out.verdict == UNSOLVABLE || p.planted;
-    else if (P == "C16") r.nontrivial = out.verdict == SOLVED && (p.feats.count("product with a non-constant factor") || p.feats.count("unary minus") || p.feats.count("division") || p.feats.count("boolean constant expression"));
+    else if (P == "C16") r.nontrivial = out.verdict == SOLVED && (!p.expect_path.empty() || p.feats.count("product with a non-constant factor") || p.feats.count("unary minus") || p.feats.count("division") || p.feats.count("boolean constant expression"));
     else if (P == "C17") r.nontrivial = nontrivial_objects(p, out);
     else if (P == "C18") r.nontrivial = true;
     else if (P == "C03") { /* set by check_rules */ }
@@ -1169,6 +1233,8 @@ namespace
     pbt::Config c;
     c.default_budget_ms = 20000;
     c.crash_is_violation = o.prop == "C18" || o.prop == "C19"; // C19: "a crash is not" an allowed outcome of execution
+    // layer L3d builds problems with at most 3 alternatives and 5 atoms: a CPU budget of many seconds exhausted on one of them is a hang
+    c.timeout_is_violation = o.prop == "C18" && o.get("layer", "") == "L3d";
     return c;
   }
 } // namespace
